@@ -337,3 +337,43 @@ func H_C12_interleave() {
 	}
 	vHNSWSearchChecks(idx, m, resident, []int{4})
 }
+
+func init() { vHarnesses["H_C12_band"] = H_C12_band }
+
+// a soft-deleted band between the entry point and live vertices, then one more Add next to it whose
+// back-links overflow (and prune) the neighbour lists bordering the band: ten vertices on a concrete line
+// (levels 0), band start / width chosen, the new vertex at any integer coordinate; the vertices behind
+// the band must stay reachable (search traverses soft-deleted vertices) and the search non-empty / sound.
+func H_C12_band() {
+	idx, err := NewHNSWIndex(1, L2Squared, vHM, 8, 8)
+	vAssert(err == nil, "constructor")
+	m := vNewRef(L2Squared)
+	const n = 10
+	for i := 0; i < n; i++ {
+		vHNSWAdd(idx, m, uint32(10+i), []float32{float32(-14 + 3*i)}, 0)
+	}
+	vHNSWReachable(idx)
+	s := 1 + vChoose("band_start", 6) // 1..6
+	w := 2 + vChoose("band_width", 3) // 2..4
+	vAssume(s+w <= n-1)
+	for i := s; i < s+w; i++ {
+		vRemoveBoth(idx, m, uint32(10+i))
+	}
+	vTag(vName("band", s*10+w))
+	// the new vertex lies among the live vertices on the entry point's side (next to the band or not):
+	// an outlier placed inside the band is the known outlier-orphaning finding of H_C12_reach6, not this harness' subject
+	x := vVec("x", 1)
+	vAssume(vAnd(x[0] >= float32(-15), x[0] <= float32(-14+3*(s-1)+1)))
+	vHNSWAdd(idx, m, 30, x, 0)
+	vHNSWReachable(idx)
+	if vChoose("remove_left_too", 2) == 1 {
+		// the whole side holding the entry point goes as well: only vertices behind the band stay live
+		for i := 0; i < s; i++ {
+			vRemoveBoth(idx, m, uint32(10+i))
+		}
+		vRemoveBoth(idx, m, 30)
+		vTag("left-removed")
+	}
+	vHNSWSearchChecks(idx, m, n+1, []int{4})
+	vCover("built")
+}
